@@ -134,6 +134,8 @@ impl MoveGen {
         for x in 0..self.moves.len() {
             self.moves[x].bitboard &= !mask;
         }
+        // keep the used entries at the front of the list
+        self.set_iterator_mask(self.iterator_mask);
     }
 
     /// Never, ever, iterate this move
@@ -145,6 +147,8 @@ impl MoveGen {
                 found = true;
             }
         }
+        // keep the used entries at the front of the list
+        self.set_iterator_mask(self.iterator_mask);
         found
     }
 
